@@ -56,6 +56,7 @@ class Engine:
         self.prove_timeout = int(opts.get("prove_timeout_ms", 10000))
         self.seed = int(opts.get("seed", 0))
         self.no_witness = bool(opts.get("no_witness"))
+        self.cvc5_budget = int(opts.get("cvc5_recheck", 0))
         if self.seed:
             self.solver.set("random_seed", self.seed % (2**31))
         self.prefix = list(prefix)
@@ -332,6 +333,9 @@ class Engine:
             r, m = self._portfolio(z3.Not(phi))
         if r == z3.unsat:
             self.oblig.append((label, "unsat"))
+            if self.cvc5_budget > 0:
+                self.cvc5_budget -= 1
+                self._cvc5_recheck(z3.Not(phi), label)
             return True
         if r == z3.sat and m is not None:
             self.oblig.append((label, "sat"))
@@ -344,6 +348,39 @@ class Engine:
         self.oblig.append((label, "unknown"))
         self.inconclusive.append(label)
         return False
+
+    def _cvc5_recheck(self, goal, label):
+        """Second solver on a z3 `unsat`: the same query, exported as SMT-LIB2, decided by cvc5.
+        cvc5 `sat` = disagreement (harness error); `unknown`/timeout is only recorded."""
+        t = time.time()
+        try:
+            import cvc5
+
+            tmp = z3.Solver()
+            tmp.add(*self.solver.assertions())
+            tmp.add(goal)
+            text = tmp.to_smt2()
+            tm = cvc5.TermManager()
+            slv = cvc5.Solver(tm)
+            slv.setOption("tlimit-per", "5000")
+            slv.setLogic("ALL")
+            parser = cvc5.InputParser(slv)
+            parser.setStringInput(cvc5.InputLanguage.SMT_LIB_2_6, text, "q")
+            sm = parser.getSymbolManager()
+            res = "unknown"
+            while True:
+                cmd = parser.nextCommand()
+                if cmd.isNull():
+                    break
+                out = str(cmd.invoke(slv, sm)).strip()
+                if out in ("sat", "unsat", "unknown"):
+                    res = out
+        except Exception as ex:  # noqa: BLE001  (parse problems etc.: recorded, not a verdict)
+            res = "error:" + type(ex).__name__
+        self.tsolve += time.time() - t
+        self.nq["cvc5:" + res] += 1
+        if res == "sat":
+            self.inconclusive.append(f"{label}: cvc5 disagrees with z3's unsat")
 
     def _portfolio(self, goal):
         """Second opinions for `unknown`: the nlsat tactic on the pure-real part (fails fast when UFs or
